@@ -130,9 +130,15 @@ def st_es_case(draw, tier="quick", versions=(0, 1, 2), boundary_choices=(True, T
     hi = {2: 1500, 3: 1200}[dim]
     if tier == "thorough":
         hi = int(hi * 1.6)
+    boundary = draw(st.sampled_from(list(boundary_choices)))
+    # the automatic extend/split decision compares point counts of an area and its parents; without boundary points these
+    # counts can be zero and the library's own assertions in set_extend_benefit/set_split_benefit fire (3D, version 2,
+    # seen in the thorough tier). The properties do not quantify over boundary=False for extend-split, so the automatic
+    # decision is generated with boundary points only.
+    auto = draw(st.booleans()) and boundary
     return dict(kind="es", dim=dim, lmin=1, lmax=lmax, a=a, b=b, version=draw(st.sampled_from(list(versions))),
-                nref=draw(st.integers(0, 3)), boundary=draw(st.sampled_from(list(boundary_choices))),
-                auto=draw(st.booleans()), ssd=draw(st.booleans()),
+                nref=draw(st.integers(0, 3)), boundary=boundary,
+                auto=auto, ssd=draw(st.booleans()),
                 estimator=draw(st.sampled_from(["tape", "tape", "library"])),
                 maxev=draw(st.integers(hi // 3, hi)), maxsteps=draw(st.sampled_from([2, 3, 4, 5, 6, 8, 12, 16])), tape=tape, mode=mode,
                 fseed=draw(st.integers(0, 10 ** 6)),
